@@ -3,7 +3,7 @@
    EVERY x in dom, the checked-access run f x is neither Crash (an index/slice
    out of range or an explicit panic) nor Hang (fuel = one unit per loop
    iteration, len+1 given). *)
-From V Require Import Common.Base C16.Checked C16.Spec C16.Wtf8 C16.Vlq16 C16.CssNum C16.Pieces C16.Packet C16.CssIdent C16.JsxEntities C16.CssLex C16.Globstar C16.JsLex
+From V Require Import Common.Base C16.Checked C16.Spec C16.Wtf8 C16.Vlq16 C16.CssNum C16.Pieces C16.Packet C16.CssIdent C16.JsxEntities C16.CssLex C16.Globstar C16.JsLex C16.JsIdent C16.JsPragma
   C16.Proofs C16.Vlq16Proofs C16.GlobstarProofs C16.PanicSites C16.DecodeLoops.
 From V Require Import gen.PanicSitesGen gen.DecodeLoopsGen.
 From Coq Require Import String.
@@ -131,6 +131,24 @@ Print Assumptions decoder_total_js_string_template.
 Theorem decoder_total_js_ScanRegExp : forall idc, idc eof = false -> total_on all_bytes (run_regexp idc).
 Proof. exact total_js_ScanRegExp. Qed.
 Print Assumptions decoder_total_js_ScanRegExp.
+
+(* js_lexer.RangeOfIdentifier (identifier / private name with "\u{...}" escapes, for diagnostics) and its
+   fallback logger.Source.RangeOfString: every byte string, every identifier classification *)
+Theorem decoder_total_js_RangeOfIdentifier : forall ids idc, total_on all_bytes (jsRangeOfIdentifier ids idc).
+Proof. exact total_js_RangeOfIdentifier. Qed.
+Print Assumptions decoder_total_js_RangeOfIdentifier.
+Theorem decoder_total_RangeOfString : total_on (fun _ => True) RangeOfString.
+Proof. exact total_RangeOfString. Qed.
+Print Assumptions decoder_total_RangeOfString.
+
+(* js_lexer.scanForPragmaArg (argument of "//# sourceMappingURL=", "@jsx" ... comment pragmas): every byte
+   string that starts with the pragma (0 <= len(pragma) <= len(text), the callers' prefix test), every
+   whitespace classification *)
+Theorem decoder_total_js_scanForPragmaArg : forall ws skip start plen text,
+  all_bytes text -> 0 <= plen <= len text ->
+  scanForPragmaArg ws skip start plen text <> Crash /\ scanForPragmaArg ws skip start plen text <> Hang.
+Proof. exact total_scanForPragmaArg. Qed.
+Print Assumptions decoder_total_js_scanForPragmaArg.
 
 (* js_lexer.decodeJSXEntities (JSX text and attribute strings) with the guard "length > 0" in front of
    entity[0]: every byte string, every entity table *)
